@@ -33,9 +33,9 @@ CHECKS = {
  'C06': dict(level='model_checking', technique='symbolic execution (z3) of available_cards and its wrappers on an arbitrary 52-bit hand and symbolic led card; example player with random.choice as arbitrary element',
              text='The set comprehension of the real source is evaluated over 52 symbolic membership bits: result equals the follow-suit rule bit for bit, is a subset of the hand, non-empty when the hand is; state wrappers from any invariant board state; RandomPlay.play returns a member of that set for every choice.',
              note='Trusted: interpreter, z3, stub contract of random.choice.', ref='§4 C06'),
- 'C11': dict(level='model_checking', technique='symbolic execution (z3): product inductive step of PlayingPhaseWithHands and ObservedPlayingPhase on the same symbolic play from related states (all four observer seats)',
-             text='Part (a) of the property: full-information game and single-seat observer, related pre-states, same symbolic (card, seat): whenever the full game accepts, the observer accepts and both agree again on contract, declarer, turn, trick number, leader, table, history, counts, own hand and dummy view. Parts (b) network client vs seat thread and (c) sessions are covered by the session-level checks when built (see level_note).',
-             note='Only the in-process observer clause is decided here so far; the network-client clause is stated as outside this check until the session machinery lands.', ref='§4 C11'),
+ 'C11': dict(level='model_checking', technique='symbolic execution (z3): product inductive step of PlayingPhaseWithHands and ObservedPlayingPhase on the same symbolic play from related states (all four observer seats); the bundled network clients\' local replicas of recorded sessions compared with the table manager\'s log',
+             text='(a) full-information game and single-seat observer, related pre-states, same symbolic (card, seat): whenever the full game accepts, the observer accepts and both agree again on contract, declarer, turn, trick number, leader, table, history, counts, own hand and dummy view (any trick incl. 13, exact history synthesis for counterexamples). (b),(c) every bundled client of the recorded sessions completes, and its local auction and observer of every board equal the log (contract, declarer, calls, trick leaders and cards, counts); all schedules of those sessions complete by C09.',
+             note='Network-client clause bounded to the recorded sessions and bundled policies. Trusted: as C04.', ref='§4 C11'),
  'C14': dict(level='model_checking', technique='symbolic execution (z3) of every deal encoder/decoder pair: 4x52-bit symbolic deals for binary/numpy/JSON; per-suit-shape explicit hands with symbolic ranks through the real PBN string builder and regex parser; deal line with codec contract; dealer with shuffle = arbitrary bijection',
              text='decode(encode(deal)) == deal and canonical form for all deals incl. partial ones (one query over 208 Booleans) for the tuple, numpy and JSON encodings; the PBN hand codec is executed per suit shape with symbolic ranks (characters symbolic) through the real regular expression; the deal line for every first seat and every present/empty pattern under the codec contract; the random dealer for every permutation.',
              note='Trusted: interpreter, z3, regex model (sre semantics, differential-tested), numpy model; quick tier covers 48 of the 560 suit shapes, thorough all.', ref='§4 C14'),
